@@ -63,7 +63,7 @@ def gen_value(rng, kind=None):
     sig = rnd_u64(rng) if k in HAS_SIG else 0
     n = 0
     if k in (2, 4): n = 1
-    elif k in (10, 17): n = rng.choice([1, 1, 2, 2, 3, 5, 9])
+    elif k in (10, 17): n = rng.choice([1, 1, 2, 2, 3, 5, 9] + ([255, 256, 257] if rng.random() < 0.02 else []))
     infos = [rnd_fi(rng) for _ in range(n)]
     strs = rnd_strs(rng) if k in HAS_STRS else []
     return (k, sig, infos, strs)
@@ -77,7 +77,7 @@ def canon_value(v):
 
 def gen_key(rng, kind=None):
     k = rng.randrange(9) if kind is None else kind
-    name = rnd_str(rng, allow_nul=(k in (1, 3, 4, 5)))
+    name = rnd_str(rng, allow_nul=True)      # KeyType is a byte string: NUL is legal in every kind
     data = rnd_str(rng, allow_nul=True) if k == 1 else b""
     filters = rnd_strs(rng) if k in (3, 4, 5) else []
     return (k, name, data, filters)
@@ -154,6 +154,8 @@ def run(chk):
             # checksum printed with 32 bytes; canonical input may carry fewer (padded with zeros)
             def norm(s):
                 p = s.split(" ")
+                if len(p) < 4:
+                    return s
                 if p[2] != ".":
                     p[2] = ";".join(":".join(x.split(":")[:6]) + ":" + (x.split(":")[6] if x.split(":")[6] != "-" else "").ljust(64, "0") for x in p[2].split(";"))
                 return " ".join(p)
@@ -163,6 +165,14 @@ def run(chk):
             elif norm(a) != norm(b):
                 ndis += 1
                 chk.notes.setdefault("value_dec_disagreements", []).append(dict(bytes=enc, implementation=a, model=b))
+    # output-count boundaries: round trip on the implementation for counts around 2^8 and 2^16
+    mreq = ["value_many %d %d" % (k, n) for k in (10, 17) for n in (255, 256, 257, 65535, 65536, 65537, 70001)]
+    rc1, m1, e1 = vlib.run_lines(drv, mreq, timeout=600)
+    for rq, a in zip(mreq, m1 + ["<no answer: crash>"] * (len(mreq) - len(m1))):
+        chk.count(("many", rq))
+        if not a.startswith("OK"):
+            chk.violation("value-many-outputs", "a value with many outputs does not survive encode/decode on the implementation: %s -> %s" % (rq, a[:200]),
+                          dict(input=rq, implementation=a[:2000]), broken="c15 oracle (round trip, large output counts)")
     # keys
     keys = [gen_key(rng, k) for k in range(9) for _ in range(30)] + [gen_key(rng) for _ in range(N // 2)]
     kreq = ["key_enc %d %s %s %s" % (k, hx(n), hx(d), fl(f)) for (k, n, d, f) in keys]
